@@ -553,12 +553,20 @@ func (b *builder) faults(prog []*scen.TestNode, kill bool) []scen.Fault {
 		{"fstat", []string{"EIO"}},
 		{"readdir", []string{"EIO"}},
 		{"remove", []string{"EACCES"}},
+		{"cleanopen", []string{"EIO", "EACCES"}},
 	}
 	n := 1 + r.Intn(3)
 	var out []scen.Fault
 	for i := 0; i < n; i++ {
 		k := kinds[r.Intn(len(kinds))]
 		f := scen.Fault{Kind: k.kind, CallID: ids[r.Intn(len(ids))], Nth: 1 + r.Intn(2), Err: k.errs[r.Intn(len(k.errs))]}
+		if k.kind == "cleanopen" {
+			// Clean opening a used snapshot file
+			f.Kind = "openfile"
+			f.CallID = -2
+			f.PathSuffix = []string{"zz_world_a_test.snap", "zz_world_b_test.snap", "zz_world_c_test.snap", "shared.snap", "data.snap"}[r.Intn(5)]
+			f.Nth = 1
+		}
 		if k.kind == "readdir" || k.kind == "remove" {
 			// operations of Clean: addressed by directory, because Clean visits directories
 			// in Go map order, which nobody can seed (DESIGN.md 5.8)
